@@ -86,7 +86,7 @@ package storage
 //@   requires store != nil
 //@   before PutVec assert[C17] carg2 == key && carg3 == blobVec
 //@   before PutStream assert[C17] carg1 == store
-//@   before Write assert[C17] 0 <= rangeindex + 1 && rangeindex + 1 < len(blobVec) && carg1 == blobVec[rangeindex + 1]
-//@   before wrcommit assert[C17] carg0 == key && rangeindex + 1 >= len(blobVec)
+//@   before Write assert[C17,C18] 0 <= rangeindex + 1 && rangeindex + 1 < len(blobVec) && carg1 == blobVec[rangeindex + 1]
+//@   before wrcommit assert[C17,C18] carg0 == key && rangeindex + 1 >= len(blobVec)
 //@   loop 0 assigns foreign
 //@   loop 0 invariant 0 - 1 <= rangeindex && rangeindex < len(blobVec) && wr != nil && wrcommit != nil
